@@ -118,11 +118,13 @@ class Folder:
                 if isinstance(v, (list, tuple)) and all(isinstance(x, int) for x in v):
                     return bytes(v)
                 return UNKNOWN
-            if isinstance(fn, ast.Name) and fn.id in ('int', 'len', 'ord', 'chr', 'bool', 'min', 'max') and not e.keywords:
+            if isinstance(fn, ast.Name) and fn.id in ('int', 'len', 'ord', 'chr', 'bool', 'min', 'max', 'pow', 'abs') and not e.keywords:
                 vs = [self._fold(a, mod, cls, env) for a in e.args]
                 if any(v is UNKNOWN or isinstance(v, ClassRef) for v in vs):
                     return UNKNOWN
-                return {'int': int, 'len': len, 'ord': ord, 'chr': chr, 'bool': bool, 'min': min, 'max': max}[fn.id](*vs)
+                if fn.id == 'pow' and (len(vs) != 2 or not all(isinstance(v, int) for v in vs) or vs[1] > 4096):
+                    return UNKNOWN
+                return {'int': int, 'len': len, 'ord': ord, 'chr': chr, 'bool': bool, 'min': min, 'max': max, 'pow': pow, 'abs': abs}[fn.id](*vs)
             # IntSubclass(5) -> 5 ; Cls(const) for int-like wrappers
             if len(e.args) == 1 and not e.keywords:
                 target = self._fold(fn, mod, cls, env) if isinstance(fn, (ast.Name, ast.Attribute)) else UNKNOWN
